@@ -676,7 +676,7 @@ PLANS["C12"] = dict(
         dict(name="plugin-replies",
              gen=dict(module="MC_PluginProc_C17", cfg=lambda tier, seed: c17_cfg(tier, seed), select=lambda cases, tier, seed: [c for c in cases if c["in"]["timing"] == "immediate"]),
              drive=dict(driver="pluginproc"),
-             validate=dict(module="Trace_PluginProc", only_rules=["no-panic"],
+             validate=dict(module="Trace_PluginProc", only_rules=["no-panic", "buffered-beyond-cap"],
                            cfg=cfg_lines("SPECIFICATION Spec", 'CONSTANT TraceFile = "trace.ndjson"', "CONSTANT Cap = 2", "CONSTANT Deadline = 2",
                                          "CONSTANT WaitDelay = 1", "CONSTANT HoldFor = 6", "CONSTANT Bound = 3", "POSTCONDITION AllConsumed", "CHECK_DEADLOCK FALSE"))),
         dict(name="signingkeys",
